@@ -10,33 +10,33 @@ namespace Manticore.C20
 open Manticore
 open Manticore.Gen
 
-/-- the one-byte separators -/
+-- the one-byte separators
 theorem consts_match_model_separators :
     [slashB] = ConstsC20.v4_sepMask ∧ [dotB] = ConstsC20.v4_sepOctets ∧ [colonB] = ConstsC20.v6_sep ∧ [dashB] = ConstsC20.port_sep
       ∧ [colonB] = ConstsC20.lmnt_sep ∧ [colonB] = ConstsC20.lmnt_contains ∧ [colonB] = ConstsC20.lmnt_prepend := by decide
 
-/-- the regular expression literals the model transliterates -/
+-- the regular expression literals the model transliterates
 theorem consts_match_model_regexps :
     ConstsC20.port_regexp = portRangeRegexp ∧ ConstsC20.lmnt_regexp = lmntRegexp := ⟨rfl, rfl⟩
 
-/-- the format strings of `String`, `CIDRAddress`, `CIDRMask` and `TCPPortRange.String` -/
+-- the format strings of `String`, `CIDRAddress`, `CIDRMask` and `TCPPortRange.String`
 theorem consts_match_model_formats :
     ConstsC20.v4_format = asciiBytes "%d.%d.%d.%d/%d" ∧ ConstsC20.v4_formatAddress = ConstsC20.v4_format
       ∧ ConstsC20.v4_formatMask = ConstsC20.v4_format ∧ ConstsC20.port_format = asciiBytes "%d-%d" := by decide
 
-/-- `strconv.ParseUint(octets[i], 10, 8)` -/
+-- `strconv.ParseUint(octets[i], 10, 8)`
 theorem consts_match_model_octet (x : Bytes) :
     octet x =
     (
     (parseUint ConstsC20.v4_o0_base ConstsC20.v4_o0_bits x).map UInt8.ofNat) := by exact rfl
 
-/-- the four octets are parsed alike, from `octets[0]`…`octets[3]` of `parts[0]` -/
+-- the four octets are parsed alike, from `octets[0]`…`octets[3]` of `parts[0]`
 theorem consts_match_model_octets_alike :
     [ConstsC20.v4_o1_base, ConstsC20.v4_o2_base, ConstsC20.v4_o3_base] = [ConstsC20.v4_o0_base, ConstsC20.v4_o0_base, ConstsC20.v4_o0_base]
       ∧ [ConstsC20.v4_o1_bits, ConstsC20.v4_o2_bits, ConstsC20.v4_o3_bits] = [ConstsC20.v4_o0_bits, ConstsC20.v4_o0_bits, ConstsC20.v4_o0_bits] := by
   decide
 
-/-- `NewIPv4FromString`: part counts, which part is what, base and width of the mask, the mask bound -/
+-- `NewIPv4FromString`: part counts, which part is what, base and width of the mask, the mask bound
 theorem consts_match_model_parseIPv4 (s : Bytes) :
     parseIPv4 s =
     (
@@ -68,19 +68,19 @@ theorem consts_match_model_parseIPv4 (s : Bytes) :
           | some d => pure (some ⟨a, b, c, d, UInt8.ofNat maskBits⟩)
       else pure none) := by exact rfl
 
-/-- `ToUInt32` -/
+-- `ToUInt32`
 theorem consts_match_model_toUInt32 (i : IPv4) :
     toUInt32 i =
     (
       (i.a.toUInt32 <<< UInt32.ofNat ConstsC20.v4_toU32_sa) ||| (i.b.toUInt32 <<< UInt32.ofNat ConstsC20.v4_toU32_sb) ||| (i.c.toUInt32 <<< UInt32.ofNat ConstsC20.v4_toU32_sc) ||| i.d.toUInt32) := by exact rfl
 
-/-- `uint32(0xFFFFFFFF) << (32 - MaskBits)` in `ComputeMask` -/
+-- `uint32(0xFFFFFFFF) << (32 - MaskBits)` in `ComputeMask`
 theorem consts_match_model_maskOf (m : UInt8) :
     maskOf m =
     (
     goShl32 (UInt32.ofNat ConstsC20.v4_cm_mask_ones) (UInt8.ofNat ConstsC20.v4_cm_mask_width - m)) := by exact rfl
 
-/-- `ComputeMask` -/
+-- `ComputeMask`
 theorem consts_match_model_computeMask (i : IPv4) :
     computeMask i =
     (
@@ -88,7 +88,7 @@ theorem consts_match_model_computeMask (i : IPv4) :
       ⟨((masked >>> UInt32.ofNat ConstsC20.v4_cm_a_shift) &&& UInt32.ofNat ConstsC20.v4_cm_a_mask).toUInt8, ((masked >>> UInt32.ofNat ConstsC20.v4_cm_b_shift) &&& UInt32.ofNat ConstsC20.v4_cm_b_mask).toUInt8,
        ((masked >>> UInt32.ofNat ConstsC20.v4_cm_c_shift) &&& UInt32.ofNat ConstsC20.v4_cm_c_mask).toUInt8, (masked &&& UInt32.ofNat ConstsC20.v4_cm_d_mask).toUInt8, i.m⟩) := by exact rfl
 
-/-- `IsInSubnet` builds the same mask as `ComputeMask`; operator nesting of the IPv4 expressions -/
+-- `IsInSubnet` builds the same mask as `ComputeMask`; operator nesting of the IPv4 expressions
 theorem consts_match_model_v4_shapes :
     [ConstsC20.v4_sub_mask_ones, ConstsC20.v4_sub_mask_width] = [ConstsC20.v4_cm_mask_ones, ConstsC20.v4_cm_mask_width]
       ∧ [ConstsC20.v4_toU32_shape, ConstsC20.v4_cm_mask_shape, ConstsC20.v4_cm_masked_shape, ConstsC20.v4_sub_mask_shape,
@@ -98,7 +98,7 @@ theorem consts_match_model_v4_shapes :
            "(== (& (i.ToUInt32) mask) (& (subnet.ToUInt32) mask))",
            "(&& (>= (i.ToUInt32) (start.ToUInt32)) (<= (i.ToUInt32) (end.ToUInt32)))"] := ⟨by decide, rfl⟩
 
-/-- `strconv.ParseUint(parts[i], 16, 16)` -/
+-- `strconv.ParseUint(parts[i], 16, 16)`
 theorem consts_match_model_group (x : Bytes) :
     group x =
     (
@@ -110,7 +110,7 @@ theorem consts_match_model_groups_alike :
       ∧ [ConstsC20.v6_g1_bits, ConstsC20.v6_g2_bits, ConstsC20.v6_g3_bits, ConstsC20.v6_g4_bits, ConstsC20.v6_g5_bits, ConstsC20.v6_g6_bits,
          ConstsC20.v6_g7_bits] = List.replicate 7 ConstsC20.v6_g0_bits := by decide
 
-/-- `NewIPv6FromString`: the number of groups and which part is which -/
+-- `NewIPv6FromString`: the number of groups and which part is which
 theorem consts_match_model_parseIPv6 (s : Bytes) :
     parseIPv6 s =
     (
@@ -150,7 +150,7 @@ theorem consts_match_model_parseIPv6 (s : Bytes) :
         | some h => pure (some ⟨a, b, c, d, e, f, g, h⟩)
       else pure none) := by exact rfl
 
-/-- `ToUInt128` -/
+-- `ToUInt128`
 theorem consts_match_model_toUInt128 (i : IPv6) :
     toUInt128 i =
     (
@@ -163,7 +163,7 @@ theorem consts_match_model_v6_shapes :
          "(| (| (| (<< (uint64 i.E) 48) (<< (uint64 i.F) 32)) (<< (uint64 i.G) 16)) (uint64 i.H))",
          "(&& (|| (> (index ip 0) (index startIP 0)) (&& (== (index ip 0) (index startIP 0)) (>= (index ip 1) (index startIP 1)))) (|| (< (index ip 0) (index endIP 0)) (&& (== (index ip 0) (index endIP 0)) (<= (index ip 1) (index endIP 1)))))"] := rfl
 
-/-- `NewTCPPortRangeFromString`: part count, base 10 and width 16, the bounds 65535 and the defaults 0 and 65535 -/
+-- `NewTCPPortRangeFromString`: part count, base 10 and width 16, the bounds 65535 and the defaults 0 and 65535
 theorem consts_match_model_parsePortRange (s : Bytes) :
     parsePortRange s =
     (
@@ -192,7 +192,7 @@ theorem consts_match_model_parsePortRange (s : Bytes) :
 theorem consts_match_model_port_trim : [ConstsC20.port_trim0, ConstsC20.port_trim1] = [ConstsC20.port_start_idx, ConstsC20.port_end_idx] := by
   decide
 
-/-- `ParseLMNTHashes`: which part is which hash and the hash length -/
+-- `ParseLMNTHashes`: which part is which hash and the hash length
 theorem consts_match_model_lmntCore (t : Bytes) :
     lmntCore t =
     (
